@@ -9,6 +9,8 @@ import Lockable.Proofs.Stream2
 import Lockable.Proofs.NoPanic
 import Lockable.Proofs.Erasure
 import Lockable.Props.C15
+import Lockable.Proofs.Stream
+import Lockable.Proofs.Usable
 namespace Lockable
 
 /-- a handle whose owner is a pending future that can be dropped -/
@@ -302,5 +304,23 @@ example :
     let a4 := (a3.exec (.sdrop 1)).1
     (a3.streams.map fun p => p.2.items) = [[200]] ∧ (a3.s.hs 200).isSome = true ∧
     a4.streams.isEmpty = true ∧ a4.s.hs 200 = none ∧ absVal a4.s 1 = some 10 ∧ absVal a4.s 2 = some 20 := by decide
+
+/-- **A `try_lock` call that fails has no lasting effect — at the level of the public call, in every reachable state**: after any
+sequence of API calls (streams, suspended calls, waiters anywhere), a plain `try_lock`/`try_lock_async` on a key that is not free
+answers `None` and leaves the *whole* API state — entries, values, queues, handles, stream bookkeeping, suspended calls — exactly
+as it was, up to the recency refresh of its lookup (`touch`, the identity for hash map and pool; a lasting effect the lru code has). -/
+theorem C06_failed_try_call_erased (kind : Kind) (cs : List Call) (h k h0 : Nat) :
+    let a := cs.foldl (fun a c => (a.exec c).1) (Api.init kind)
+    a.s.hs h = none → (a.exec (.lock .try h k .none h0)).2.res.isGuard = false →
+    (a.exec (.lock .try h k .none h0)).1 = { a with s := a.s.touch k } ∧
+    (match (a.exec (.lock .try h k .none h0)).2.res with | .none => True | _ => False) := by
+  intro a hf hfail
+  exact lock_try_failed_erased a (ainv_execs cs _ (ainv_init kind)).inv h k h0 hf hfail
+
+/-- non-vacuity: key 1 held by guard 1; a try on it fails, and in a hash map the state afterwards is the state before -/
+example :
+    let a := ((Api.init .hashMap).exec (.lock .wait 1 1 .none 100)).1
+    (a.exec (.lock .try 2 1 .none 100)).2.res.isGuard = false ∧ a.s.hs 2 = none ∧ a.s.touch 1 = a.s := by
+  refine ⟨by decide, by decide, rfl⟩
 
 end Lockable
